@@ -381,14 +381,17 @@ func (w *Workceptor) scanForUnits() {
 
 func (w *Workceptor) findUnit(unitID string) (WorkUnit, error) {
 	w.activeUnitsLock.RLock()
-	defer w.activeUnitsLock.RUnlock()
 	unit, ok := w.activeUnits[unitID]
+	w.activeUnitsLock.RUnlock()
 	if ok {
 		return unit, nil
 	}
-	// if not in active units, rescan work unit dir and recheck
+	// if not in active units, rescan work unit dir and recheck.  The read lock must not be held here:
+	// scanForUnit takes the write lock when it finds the unit on disk.
 	w.scanForUnit(unitID)
+	w.activeUnitsLock.RLock()
 	unit, ok = w.activeUnits[unitID]
+	w.activeUnitsLock.RUnlock()
 	if !ok {
 		return nil, fmt.Errorf("unknown work unit %s", unitID)
 	}
